@@ -7,7 +7,10 @@ package main
 // (bug.Remove, identity.Remove, *.RemoveAll), the cache API (RepoCache.Bugs().Remove,
 // Identities().Remove, RemoveAll) or the CLI (git-bug bug rm, git-bug wipe), followed by a generated
 // sequence of {the same removal again, close+reopen, cache rebuild, MergeAll of every remote without a
-// fetch}. Before the removal and after every step the harness records every ref of M, what an open
+// fetch}. The repository may also hold names that are not ids next to git-bug's refs: remote-tracking branches of the
+// user's branches bugs/<x>, identities/<x> (refs/remotes/<remote>/bugs/<x>) and copies kept inside refs/bugs/,
+// refs/identities/; the entity API may be given something that is not a complete id; a handle resolved before a
+// removal through the cache may edit and commit after it. Before the removal and after every step the harness records every ref of M, what an open
 // RepoCache answers (excerpt, Resolve, prefix resolution, query, full-text search, document counts),
 // the git configuration and the listing of .git/git-bug. The Coq side replays the steps on Remove.step
 // and evaluates C14_ok on what was observed.
@@ -55,6 +58,18 @@ type c14Input struct {
 	PLen    int       `json:"plen"`    // rm through cache/cli: prefix length (0 = whole id)
 	Missing bool      `json:"missing"` // rm: aim at an id that does not exist
 	Follow  []string  `json:"follow"`  // again | reopen | rebuild | merge
+	// names that are not ids inside git-bug's ref prefixes
+	Stray []c14Stray `json:"stray,omitempty"`
+	// rm through the entity API: 0 = the whole id, n > 0 = only its first n characters, -1 = the empty id
+	EntPfx int `json:"entpfx,omitempty"`
+	// cache mode: a BugCache / IdentityCache resolved before the removal edits and commits after it
+	Stale bool `json:"stale,omitempty"`
+}
+
+type c14Stray struct {
+	NS   string `json:"ns"`   // bugs | identities
+	Loc  int    `json:"loc"`  // 0: refs/<ns>/<name> (a copy of an entity ref); j+1: refs/remotes/r<j>/<ns>/<name> (a user branch)
+	Name string `json:"name"` // not a valid id
 }
 
 type c14Ent struct {
@@ -107,30 +122,49 @@ type c14Step struct {
 }
 
 type c14Session struct {
-	in      c14Input
-	dir     string
-	mpath   string
-	hpath   string
-	rnames  []string
-	gitbug  string
-	mrepo   *repository.GoGitRepo
-	mc      *cache.RepoCache
-	raw     *repository.GoGitRepo // entity-API handle on M (ent mode)
-	hrepo   *repository.GoGitRepo
-	uc      *cache.IdentityCache
-	U       *identity.Identity
-	V       *identity.Identity
-	ents    []c14Ent
-	seq     int
-	tags    map[string]bool
-	skip    string
-	target  c14Ent
-	prefix  string
-	probes  []c14Pfx
-	init    *c14Obs
-	steps   []c14Step
-	opened  bool // ent mode: a cache has been opened
-	removed bool // a removal reported success on an existing target
+	in       c14Input
+	dir      string
+	mpath    string
+	hpath    string
+	rnames   []string
+	gitbug   string
+	mrepo    *repository.GoGitRepo
+	mc       *cache.RepoCache
+	raw      *repository.GoGitRepo // entity-API handle on M (ent mode)
+	hrepo    *repository.GoGitRepo
+	uc       *cache.IdentityCache
+	U        *identity.Identity
+	V        *identity.Identity
+	ents     []c14Ent
+	seq      int
+	tags     map[string]bool
+	skip     string
+	target   c14Ent
+	prefix   string
+	probes   []c14Pfx
+	init     *c14Obs
+	steps    []c14Step
+	opened   bool // ent mode: a cache has been opened
+	removed  bool // a removal reported success on an existing target
+	foreign  repository.Hash
+	entArg   string          // ent mode: what is handed to Remove as the id
+	staleB   *cache.BugCache // handle resolved before the removal
+	staleI   *cache.IdentityCache
+	staleOn  bool   // a handle has been taken (once per case)
+	staleEnt string // "kind:id" of the entity whose handle committed after the removal
+}
+
+// entity.Id.Validate
+func c14ValidId(id string) bool {
+	if len(id) != 64 {
+		return false
+	}
+	for _, r := range id {
+		if (r < 'a' || r > 'z') && (r < '0' || r > '9') {
+			return false
+		}
+	}
+	return true
 }
 
 func (s *c14Session) fail(format string, a ...interface{}) {
@@ -212,6 +246,7 @@ func (s *c14Session) setup() {
 	if err != nil {
 		panic(err)
 	}
+	s.foreign = commit
 	for _, n := range []string{"refs/heads/main", "refs/bugs-old/" + strings.Repeat("ab", 32), "refs/identities-old/x", "refs/remotes/r0/main", "refs/remotes/r0/bugs-old/" + strings.Repeat("cd", 32), "refs/tags/v1"} {
 		if err := s.mrepo.UpdateRef(n, commit); err != nil {
 			panic(err)
@@ -631,29 +666,59 @@ func (s *c14Session) configure() {
 			s.fail("unset user: %v", err)
 		}
 	}
+	for _, st := range s.in.Stray {
+		if (st.NS != "bugs" && st.NS != "identities") || st.Name == "" || c14ValidId(st.Name) {
+			s.fail("bad stray ref %+v", st)
+			return
+		}
+		if st.Loc > 0 {
+			// what `git fetch` leaves for a branch <ns>/<name> of the remote
+			if st.Loc > s.in.NRem {
+				continue
+			}
+			if err := s.mrepo.UpdateRef(fmt.Sprintf("refs/remotes/r%d/%s/%s", st.Loc-1, st.NS, st.Name), s.foreign); err != nil {
+				s.fail("user branch: %v", err)
+				return
+			}
+			s.tags["user-tracking-branch"] = true
+			continue
+		}
+		// a copy of an entity ref kept inside the namespace (git update-ref refs/bugs/backup refs/bugs/<id>)
+		refs, err := s.mrepo.ListRefs("refs/" + st.NS + "/")
+		if err != nil {
+			s.fail("list refs: %v", err)
+			return
+		}
+		var ids []string
+		for _, r := range refs {
+			if id := r[strings.LastIndex(r, "/")+1:]; c14ValidId(id) && r == "refs/"+st.NS+"/"+id {
+				ids = append(ids, r)
+			}
+		}
+		if len(ids) == 0 {
+			s.tags["stray-local-skipped"] = true
+			continue
+		}
+		sort.Strings(ids)
+		if err := s.mrepo.CopyRef(ids[0], "refs/"+st.NS+"/"+st.Name); err != nil {
+			s.fail("stray ref: %v", err)
+			return
+		}
+		s.tags["stray-local-name"] = true
+	}
 }
 
 // ---------------------------------------------------------------- looking at M
 
 func (s *c14Session) classifyRef(name string) (string, int, string) {
-	parts := strings.Split(name, "/")
-	if len(parts) == 3 && parts[0] == "refs" {
-		switch parts[1] {
-		case "bugs":
-			return "bug", 0, parts[2]
-		case "identities":
-			return "ident", 0, parts[2]
+	// by prefix: the rest of the name is the "id" (it may be anything, slashes included: Remove.valid_id decides)
+	for _, ns := range [][2]string{{"bugs", "bug"}, {"identities", "ident"}} {
+		if rest := strings.TrimPrefix(name, "refs/"+ns[0]+"/"); rest != name && rest != "" {
+			return ns[1], 0, rest
 		}
-	}
-	if len(parts) == 5 && parts[0] == "refs" && parts[1] == "remotes" {
 		for j := 0; j < 3; j++ {
-			if parts[2] == fmt.Sprintf("r%d", j) {
-				switch parts[3] {
-				case "bugs":
-					return "bug", j + 1, parts[4]
-				case "identities":
-					return "ident", j + 1, parts[4]
-				}
+			if rest := strings.TrimPrefix(name, fmt.Sprintf("refs/remotes/r%d/%s/", j, ns[0])); rest != name && rest != "" {
+				return ns[1], j + 1, rest
 			}
 		}
 	}
@@ -931,7 +996,7 @@ func (s *c14Session) pickTarget() {
 	seen := map[string]bool{}
 	var cands []string
 	for _, r := range o.Refs {
-		if r.Kind != s.in.Kind || seen[r.Id] {
+		if r.Kind != s.in.Kind || seen[r.Id] || !c14ValidId(r.Id) {
 			continue
 		}
 		if r.Kind == "ident" && !extra[r.Id] {
@@ -989,6 +1054,13 @@ func (s *c14Session) pickTarget() {
 		n = 64
 	}
 	s.prefix = s.target.Id[:n]
+	s.entArg = s.target.Id
+	switch {
+	case s.in.EntPfx < 0:
+		s.entArg = ""
+	case s.in.EntPfx > 0 && s.in.EntPfx < 64:
+		s.entArg = s.target.Id[:s.in.EntPfx]
+	}
 	seenP := map[string]bool{}
 	for _, l := range []int{n, 1, 2, 3, 7, 64} {
 		p := s.target.Id[:l]
@@ -1057,13 +1129,17 @@ func (s *c14Session) removal() {
 		if s.in.Act == "rm" {
 			var err error
 			if s.target.Kind == "bug" {
-				err = bug.Remove(repo, entity.Id(s.target.Id))
+				err = bug.Remove(repo, entity.Id(s.entArg))
 			} else {
-				err = identity.Remove(repo, entity.Id(s.target.Id))
+				err = identity.Remove(repo, entity.Id(s.entArg))
 			}
 			out, es := outOf(err)
-			s.record(fmt.Sprintf("AEntRemove %s %s", coqKind(s.target.Kind), c14Text(s.target.Id)), "ent-rm", out, es)
-			s.noteRemoved(out)
+			s.record(fmt.Sprintf("AEntRemove %s %s", coqKind(s.target.Kind), c14Text(s.entArg)), "ent-rm", out, es)
+			if s.entArg == s.target.Id {
+				s.noteRemoved(out)
+			} else if out == "XOk" {
+				s.tags["ent-rm-of-a-non-id-succeeded"] = true
+			}
 		} else {
 			out, es := outOf(bug.RemoveAll(repo))
 			s.record("AEntRemoveAll KBug", "ent-rmall-bugs", out, es)
@@ -1075,6 +1151,7 @@ func (s *c14Session) removal() {
 		if s.skip != "" {
 			return
 		}
+		s.takeHandle()
 		if s.in.Act == "rm" {
 			var err error
 			if s.target.Kind == "bug" {
@@ -1085,9 +1162,11 @@ func (s *c14Session) removal() {
 			out, es := outOf(err)
 			s.record(fmt.Sprintf("ACacheRemove %s %s", coqKind(s.target.Kind), c14Text(s.prefix)), "cache-rm", out, es)
 			s.noteRemoved(out)
+			s.staleCommit(out == "XOk")
 		} else {
 			out, es := outOf(s.mc.RemoveAll())
 			s.record("ACacheRemoveAll", "cache-rmall", out, es)
+			s.staleCommit(out == "XOk")
 		}
 	case "cli":
 		s.closeCache()
@@ -1110,6 +1189,79 @@ func (s *c14Session) removal() {
 				}
 			}
 			s.record("ACliWipe", "cli-wipe", out, strings.TrimSpace(txt))
+		}
+	}
+}
+
+// takeHandle: somebody resolves the entity that is about to be removed (once per case, right before the first removal)
+func (s *c14Session) takeHandle() {
+	if !s.in.Stale || s.staleOn {
+		return
+	}
+	s.staleOn = true
+	kind, id := s.target.Kind, s.target.Id
+	if s.in.Act != "rm" {
+		// RemoveAll: one of the local entities
+		var bugs, idents []string
+		for _, r := range s.init.Refs {
+			if r.Loc != 0 || !c14ValidId(r.Id) {
+				continue
+			}
+			if r.Kind == "bug" {
+				bugs = append(bugs, r.Id)
+			} else if r.Kind == "ident" {
+				idents = append(idents, r.Id)
+			}
+		}
+		sort.Strings(bugs)
+		sort.Strings(idents)
+		t := ((s.in.Target % 16) + 16) % 16
+		switch {
+		case len(bugs) > 0 && (t%3 != 0 || len(idents) == 0):
+			kind, id = "bug", bugs[t%len(bugs)]
+		case len(idents) > 0:
+			kind, id = "ident", idents[t%len(idents)]
+		default:
+			return
+		}
+	}
+	if kind == "bug" {
+		if h, err := s.mc.Bugs().Resolve(entity.Id(id)); err == nil {
+			s.staleB = h
+		}
+	} else {
+		if h, err := s.mc.Identities().Resolve(entity.Id(id)); err == nil {
+			s.staleI = h
+		}
+	}
+}
+
+// staleCommit: the holder of the handle goes on after the removal: an edit, then Commit. Whatever they answer, the
+// removed entity must not be written back.
+func (s *c14Session) staleCommit(removed bool) {
+	hb, hi := s.staleB, s.staleI
+	s.staleB, s.staleI = nil, nil
+	if !removed || s.skip != "" {
+		return
+	}
+	switch {
+	case hb != nil:
+		_, _, _ = hb.AddCommentRaw(s.uc, s.now(), "a comment prepared before the removal", nil, nil)
+		out, es := outOf(hb.Commit())
+		s.record(fmt.Sprintf("AStaleCommit KBug %s", c14Text(string(hb.Id()))), "stale-commit", out, es)
+		s.tags["stale-handle:bug"] = true
+		s.staleEnt = "bug:" + string(hb.Id())
+		if out == "XOk" {
+			s.tags["stale-commit-succeeded"] = true
+		}
+	case hi != nil:
+		_ = hi.Mutate(s.mrepo, func(m *identity.Mutator) { m.Name = "renamed after the removal" })
+		out, es := outOf(hi.Commit())
+		s.record(fmt.Sprintf("AStaleCommit KIdent %s", c14Text(string(hi.Id()))), "stale-commit", out, es)
+		s.tags["stale-handle:ident"] = true
+		s.staleEnt = "ident:" + string(hi.Id())
+		if out == "XOk" {
+			s.tags["stale-commit-succeeded"] = true
 		}
 	}
 }
@@ -1515,8 +1667,32 @@ func genC14(r *Rand, combo int, thorough bool) c14Input {
 	if r.Chance(1, 4) {
 		in.Follow = append(in.Follow, "merge")
 	}
+	// drawn last: the stream of the fields above is what it was before these existed
+	if in.NRem > 0 && r.Chance(2, 5) {
+		for k, n := 0, r.Range(1, 2); k < n; k++ {
+			in.Stray = append(in.Stray, c14Stray{NS: c14StrayNS[r.Intn(2)], Loc: 1 + r.Intn(in.NRem), Name: c14StrayNames[r.Intn(len(c14StrayNames))]})
+		}
+	}
+	if in.Act != "rm" && r.Chance(2, 5) {
+		for k, n := 0, r.Range(1, 2); k < n; k++ {
+			in.Stray = append(in.Stray, c14Stray{NS: c14StrayNS[r.Intn(2)], Loc: 0, Name: c14StrayNames[r.Intn(len(c14StrayNames))]})
+		}
+	}
+	if in.Mode == "ent" && in.Act == "rm" && r.Chance(1, 3) {
+		in.EntPfx = []int{-1, 1, 2, 7, 10, 40, 63}[r.Intn(7)]
+	}
+	if in.Mode == "cache" && r.Chance(1, 2) {
+		in.Stale = true
+	}
 	return in
 }
+
+var c14StrayNS = []string{"bugs", "identities"}
+
+// not ids: ordinary branch names, an id of the old repository format (40 characters), a nested name, a name of the
+// right length with a character no id has
+var c14StrayNames = []string{"fix-crash", "ldap-login", "backup", strings.Repeat("0a1b2c3d", 5), "old/" + strings.Repeat("ab", 32),
+	strings.Repeat("ab", 31) + "a_", "x"}
 
 // fixed shapes that every run contains
 func c14Shapes() []c14Input {
@@ -1544,6 +1720,27 @@ func c14Shapes() []c14Input {
 		res = append(res, c14Input{NRem: 3, Hist: everywhere, User: true, Mode: m, Act: "rm", Kind: "ident", Target: 0, Follow: all})
 		res = append(res, c14Input{NRem: 1, Hist: fetched, User: true, Mode: m, Act: "rm", Kind: "bug", Target: 1, Follow: all})
 	}
+	// names that are not ids inside git-bug's prefixes: the user's remote-tracking branches stay, copies kept inside the
+	// local namespaces go with a RemoveAll / wipe (and do not stop it)
+	branches := []c14Stray{{NS: "bugs", Loc: 1, Name: "fix-crash"}, {NS: "identities", Loc: 1, Name: "ldap-login"}}
+	copies := []c14Stray{{NS: "bugs", Loc: 0, Name: "backup"}, {NS: "identities", Loc: 0, Name: strings.Repeat("0a1b2c3d", 5)}}
+	short := []string{"again", "reopen", "merge"}
+	for _, m := range [][2]string{{"ent", "rmall"}, {"cache", "rmall"}, {"cli", "wipe"}} {
+		res = append(res, c14Input{NRem: 1, Hist: fetched, User: true, Mode: m[0], Act: m[1], Kind: "bug", Follow: short, Stray: branches})
+		res = append(res, c14Input{NRem: 1, Hist: fetched, User: true, Mode: m[0], Act: m[1], Kind: "bug", Follow: short, Stray: copies})
+	}
+	res = append(res, c14Input{NRem: 1, Hist: fetched, User: true, Mode: "cache", Act: "rm", Kind: "bug", Target: 0, Follow: short, Stray: branches})
+	// the entity API given something that is not a complete id
+	for _, n := range []int{10, 1, -1} {
+		res = append(res, c14Input{NRem: 1, Hist: everywhere[:4], User: true, Mode: "ent", Act: "rm", Kind: "ident", Target: 0, EntPfx: n, Follow: short})
+	}
+	res = append(res, c14Input{NRem: 1, Hist: everywhere[:4], User: true, Mode: "ent", Act: "rm", Kind: "bug", Target: 0, EntPfx: 10, Follow: short})
+	// a handle resolved before the removal commits after it
+	late := []string{"rebuild", "again", "reopen"}
+	res = append(res, c14Input{NRem: 1, Hist: everywhere[:4], User: true, Mode: "cache", Act: "rm", Kind: "bug", Target: 0, Stale: true, Follow: late})
+	res = append(res, c14Input{NRem: 1, Hist: everywhere[:4], User: true, Mode: "cache", Act: "rm", Kind: "ident", Target: 0, Stale: true, Follow: late})
+	res = append(res, c14Input{NRem: 1, Hist: everywhere[:4], User: true, Mode: "cache", Act: "rmall", Kind: "bug", Target: 1, Stale: true, Follow: late})
+	res = append(res, c14Input{NRem: 1, Hist: everywhere[:4], User: true, Mode: "cache", Act: "rmall", Kind: "bug", Target: 0, Stale: true, Follow: late})
 	return res
 }
 
@@ -1594,19 +1791,45 @@ func (c14Driver) Run(raw json.RawMessage) Case {
 		return Case{Skip: "VERIF_GITBUG is not set (propcfg needs_gitbug)"}
 	}
 	s := runC14(in, gitbug)
-	if s.skip != "" || s.init == nil {
+	if s.init == nil || (s.skip != "" && len(s.steps) == 0) {
 		return Case{Skip: "scenario: " + s.skip}
+	}
+	if s.skip != "" {
+		// the scenario could not go on after a removal (e.g. the cache no longer opens on what a failed RemoveAll left):
+		// what has been observed up to there is judged
+		s.tags["cut-short-after-the-removal"] = true
 	}
 	// finding signatures
 	last := s.init
 	for _, st := range s.steps {
 		if st.Name == "cli-wipe" || st.Name == "cache-rmall" || st.Name == "ent-rmall-identities" {
 			for _, r := range st.Obs.Refs {
-				if r.Kind != "other" && r.Loc > 0 {
+				if r.Kind != "other" && r.Loc > 0 && c14ValidId(r.Id) {
 					s.tags["removeall-left-tracking-ref"] = true
 				}
 				if r.Kind != "other" && r.Loc == 0 {
 					s.tags["removeall-left-local-ref"] = true
+				}
+			}
+		}
+		if st.Name == "cli-wipe" || st.Name == "cache-rmall" || st.Name == "ent-rmall-identities" || st.Name == "ent-rmall-bugs" {
+			if st.Out != "XOk" {
+				s.tags["removeall-failed"] = true
+			}
+			after := map[string]bool{}
+			for _, r := range st.Obs.Refs {
+				after[fmt.Sprintf("%s/%d/%s", r.Kind, r.Loc, r.Id)] = true
+			}
+			for _, r := range last.Refs {
+				if r.Kind != "other" && r.Loc > 0 && !c14ValidId(r.Id) && !after[fmt.Sprintf("%s/%d/%s", r.Kind, r.Loc, r.Id)] {
+					s.tags["removeall-took-user-branch"] = true
+				}
+			}
+		}
+		if st.Name == "stale-commit" {
+			for _, r := range st.Obs.Refs {
+				if r.Loc == 0 && r.Kind+":"+r.Id == s.staleEnt {
+					s.tags["stale-handle-wrote-ref"] = true
 				}
 			}
 		}
@@ -1615,12 +1838,13 @@ func (c14Driver) Run(raw json.RawMessage) Case {
 		}
 		last = st.Obs
 	}
-	_ = last
 	coq := s.coqCase()
 	tags := []string{"mode:" + in.Mode, "act:" + in.Act, fmt.Sprintf("remotes:%d", in.NRem)}
 	if in.Act == "rm" {
 		tags = append(tags, "kind:"+in.Kind)
 		switch {
+		case in.Mode == "ent" && s.entArg != s.target.Id:
+			tags = append(tags, fmt.Sprintf("ent-arg:%d-characters", len(s.entArg)))
 		case in.Mode == "ent" || len(s.prefix) == 64:
 			tags = append(tags, "prefix:whole-id")
 		default:
